@@ -1025,6 +1025,13 @@ func capturedOnly(x *ssa.Alloc) bool {
 
 // onStore checks the contract's on-store assertions for a store to a struct field.
 func (e *Exec) onStore(fr *Frame, st *State, x *ssa.Store, c *Contract) {
+	if fa, ok := x.Addr.(*ssa.FieldAddr); ok && fr.parent == nil && allocRoot(fa.X) == nil {
+		if stt := derefStruct(fa.X.Type()); stt != nil {
+			if k := "L$nstore_" + stt.s.Field(fa.Field).Name(); st.heap[k] != nil {
+				st.heap[k] = e.def(SInt, Add(st.heap[k], IntLit(1)))
+			}
+		}
+	}
 	if rc := e.contractOf(e.Root); rc != nil && len(rc.NoStores) > 0 {
 		if fa, ok := x.Addr.(*ssa.FieldAddr); ok {
 			if stt := derefStruct(fa.X.Type()); stt != nil {
@@ -1044,6 +1051,9 @@ func (e *Exec) onStore(fr *Frame, st *State, x *ssa.Store, c *Contract) {
 	fa, ok := x.Addr.(*ssa.FieldAddr)
 	if !ok {
 		return
+	}
+	if allocRoot(fa.X) != nil {
+		return // initialisation of a struct this function has just allocated, not an update
 	}
 	stt := derefStruct(fa.X.Type())
 	if stt == nil {
